@@ -39,8 +39,23 @@ pub struct Rec {
 }
 
 pub fn err_id(e: &RxError) -> i64 {
+  // a payload that arrives with another type than it was raised with decodes to -77x
   if let Some(t) = e.downcast_ref::<ErrTok>() {
-    t.0
+    if t.0.rem_euclid(7) >= 5 {
+      -777
+    } else {
+      t.0
+    }
+  } else if let Some(s) = e.downcast_ref::<String>() {
+    match s.strip_prefix('e').and_then(|x| x.parse::<i64>().ok()) {
+      Some(id) if id.rem_euclid(7) == 5 => id,
+      _ => -779,
+    }
+  } else if let Some(inner) = e.downcast_ref::<RxError>() {
+    match inner.downcast_ref::<ErrTok>() {
+      Some(t) if t.0.rem_euclid(7) == 6 => t.0,
+      _ => -778,
+    }
   } else if let Some(io) = e.downcast_ref::<std::io::Error>() {
     if io.kind() == std::io::ErrorKind::TimedOut {
       -2
@@ -52,8 +67,15 @@ pub fn err_id(e: &RxError) -> i64 {
   }
 }
 
+/// The payload type depends on the id, so that "the very same payload (downcast_ref to the
+/// original type yields the original value)" is exercised for several original types: the token
+/// struct, a String, and an RxError that itself wraps the token.
 pub fn mk_err(id: i64) -> RxError {
-  RxError::from_error(ErrTok(id))
+  match id.rem_euclid(7) {
+    5 => RxError::from_error(format!("e{}", id)),
+    6 => RxError::from_error(RxError::from_error(ErrTok(id))),
+    _ => RxError::from_error(ErrTok(id)),
+  }
 }
 
 #[derive(Clone)]
